@@ -52,7 +52,8 @@ InitBody ==
   \E k \in Kinds, ct \in {"application/proto", "application/json", "application/connect+proto", "application/connect+json",
                           "application/grpc", "application/grpc+json", "application/grpc-web+proto", "application/grpc-web+verifc"},
      enc \in {"none", "gzip", "unknown", "GZIP"}, lim \in {0, 64},
-     b \in {"good", "two", "empty", "garbage", "truncated", "badmsg", "badutf8", "oversize", "cnoenc", "msgthenbad", "flagged", "flagged0", "manyok"} :
+     b \in {"good", "two", "empty", "garbage", "truncated", "badmsg", "badutf8", "oversize", "cnoenc", "cflagplain", "msgthenbad", "flagged", "flagged0", "manyok"} :
+    /\ (b = "cflagplain" => ~(k = "unary" /\ ct \in {"application/proto", "application/json"}) /\ enc \in {"none", "gzip"})
     /\ (b = "oversize" => lim > 0)
     \* a unary Connect body is one message: "several frames" classes do not exist there
     /\ (k = "unary" /\ ct \in {"application/proto", "application/json"} => b \notin {"two", "msgthenbad", "truncated", "flagged", "flagged0"})
